@@ -63,7 +63,7 @@ pub fn gen(out: &mut Out, ex: &mut Exec, _seed: u64, _thorough: bool) {
     }
     out.exhaustive = true;
     out.nontrivial = out.evaluations;
-    out.rule = "exhaustive: every u16/i16 bit pattern x N in 1..=16 x {new,new_trunc} x {signed,unsigned}; all cases distinct by construction; non-trivial = all (each is a different (N,value,op))".into();
+    out.rule = "exhaustive: every u16/i16 bit pattern x N in 1..=16 x {new,new_trunc} x {signed,unsigned}; all cases distinct by construction; non-trivial = all (each is a different (N,value,op)); plus, where offsets are created from source text: literals at the N-bit edges in every operand position (three notations, minus-signed forms), and label operands at the exact N-bit distance edges from instructions at bases on both sides of x7FFF/x8000 (oracle: the true distance fits N bits)".into();
     // the same rule where offsets are created from source text: a non-negative literal written in an N-bit signed operand
     // position fits exactly when it is below 2^(N-1) (no reinterpretation of x8000..xFFFF as negative), an unsigned one
     // (TRAP vector) exactly when it is below 2^N
@@ -96,6 +96,36 @@ pub fn gen(out: &mut Out, ex: &mut Exec, _seed: u64, _thorough: bool) {
             out.hist.hit(if accept { "parsed_negative_literal_fits" } else { "parsed_negative_literal_rejected" });
             out.op(&line, &r); out.evaluations += 1;
         } }
+    }
+    // offsets computed from LABELS: the distance from the incremented PC to the label fits an N-bit signed operand exactly when
+    // -2^(N-1) <= distance < 2^(N-1), wherever in the address space the instruction sits (in particular with PC and label
+    // on opposite sides of x7FFF/x8000, where a signed 16-bit subtraction overflows)
+    for (mn, n) in [("LD R0, ", 9u32), ("ST R0, ", 9), ("LEA R0, ", 9), ("LDI R0, ", 9), ("BRnzp ", 9), ("JSR ", 11)] {
+        let half = 1i32 << (n - 1);
+        for base in [0x3000u32, 0x7F00, 0x7FF0, 0x7FFE, 0x7FFF, 0x8000, 0x8001, 0x8100, 0xC000] {
+            for dist in [-half - 1, -half, -half + 1, -2, -1, 0, 1, 2, half - 2, half - 1, half, half + 1] {
+                // instruction at `base`; label at base + 1 + dist
+                let target = base as i32 + 1 + dist;
+                if target < 0x0200 || target > 0xFD00 { continue; }
+                let text = if target <= base as i32 {
+                    // label first (at `target`), then filler, then the instruction at `base`
+                    let fill = base as i32 - target - 1;
+                    if fill < 0 { format!(".orig x{:X}\nL {}L\n.end\n", target, mn) }
+                    else if fill == 0 { format!(".orig x{:X}\nL .fill 0\n{}L\n.end\n", target, mn) }
+                    else { format!(".orig x{:X}\nL .fill 0\n.blkw {}\n{}L\n.end\n", target, fill, mn) }
+                } else {
+                    let fill = target - base as i32 - 1;
+                    if fill == 0 { format!(".orig x{:X}\n{}L\nL .fill 0\n.end\n", base, mn) }
+                    else { format!(".orig x{:X}\n{}L\n.blkw {}\nL .fill 0\n.end\n", base, mn, fill) }
+                };
+                let line = format!("asm s 0 {}", crate::c25::hexs(text.as_bytes()));
+                let r = ex.line(&line);
+                let accept = -half <= dist && dist < half;
+                if r.starts_with("ok ") != accept { out.fail(out.lines, format!("label operand at distance {dist} from x{:04X} ({mn}N={n}): accepted={}, expected {accept} ({})", base, r.starts_with("ok "), r.chars().take(80).collect::<String>()), line.clone()); }
+                out.hist.hit(if accept { "label_distance_fits" } else { "label_distance_rejected" });
+                out.op(&line, &r); out.evaluations += 1;
+            }
+        }
     }
     // N outside 1..=16 panics (documented); two instances, outside the property's quantifier.
     for line in ["off S 17 0012", "off U 0 0000"] { let r = ex.line(line); out.op(line, &r); }
